@@ -219,8 +219,16 @@ def large_case(draw):
     return {"spec": s, "dtype": "float64"}
 
 
+@st.composite
+def narrow_int_case(draw):
+    from .c10 import narrow_int_case as c10_case
+    c = draw(c10_case())
+    return {"spec": c["spec"], "dtype": "float64"}
+
+
 def subs():
-    return [Sub("fit_large_n", large_case(), oracle_grad, 16, 300, "coherence of fits on 1030-2300 samples")] + _subs()
+    return [Sub("fit_large_n", large_case(), oracle_grad, 16, 300, "coherence of fits on 1030-2300 samples"),
+            Sub("fit_narrow_int_batch_size", narrow_int_case(), oracle_grad, 16, 400, "batch sizes as np.int8/np.uint8/np.int16 on 70-300 samples")] + _subs()
 
 
 def _subs():
